@@ -18,6 +18,7 @@ import (
 	"math"
 	"math/rand/v2"
 	"os"
+	"reflect"
 	"regexp"
 	"runtime/debug"
 	"sort"
@@ -48,6 +49,7 @@ func runC20(c *Ctx) {
 	}
 	phase("oracle", c20OracleCheck)
 	phase("depth", c20DepthSweep)
+	phase("leaf", c20MarshalLeafSweep)
 	phase("cycles", c20Cycles)
 	phase("indent", c20IndentSweep)
 	phase("sweep", c20PanicSweep)
@@ -1869,4 +1871,302 @@ func c20SweepOne(c *Ctx, w *c20Watch, rng *rand.Rand, in []byte) {
 			}
 		}
 	})
+}
+
+// =====================================================================================
+// (a') marshal depth sweep over the innermost value: every Go value whose encoding is a container
+// or can take a fast path, under slice-, map- and pointer-to-struct nesting
+// =====================================================================================
+
+type c20Empty struct{}
+type c20AllOmitted struct {
+	X int            `json:"x,omitzero"`
+	Y []int          `json:"y,omitempty"`
+	Z map[string]int `json:"z,omitempty"`
+	p int            //nolint:unused (unexported: never a member)
+}
+type c20OneField struct {
+	X int `json:"x"`
+}
+type c20Ignored struct {
+	X int `json:"-"`
+}
+type c20RawObj struct{}
+
+func (c20RawObj) MarshalJSON() ([]byte, error) { return []byte(`{}`), nil }
+
+type c20RawArr struct{}
+
+func (c20RawArr) MarshalJSON() ([]byte, error) { return []byte(`[]`), nil }
+
+type c20ToObj struct{}
+
+func (c20ToObj) MarshalJSONTo(e *jsontext.Encoder) error {
+	if err := e.WriteToken(jsontext.BeginObject); err != nil {
+		return err
+	}
+	return e.WriteToken(jsontext.EndObject)
+}
+
+type c20ToVal struct{}
+
+func (c20ToVal) MarshalJSONTo(e *jsontext.Encoder) error { return e.WriteValue(jsontext.Value(`[]`)) }
+
+type c20W struct {
+	A any `json:"a"`
+}
+
+// c20Leaf: an innermost Go value; levels = the JSON nesting depth of its own encoding under v2 defaults.
+type c20Leaf struct {
+	name   string
+	levels int
+	mk     func() any
+	v1     bool // the v1 options encode it with the same nesting (nil slices/maps become null under v1)
+}
+
+func c20Leaves() []c20Leaf {
+	base := []c20Leaf{
+		{"[]any{}", 1, func() any { return []any{} }, true},
+		{"[]any(nil)", 1, func() any { return []any(nil) }, false},
+		{"[]int{}", 1, func() any { return []int{} }, true},
+		{"[]int(nil)", 1, func() any { return []int(nil) }, false},
+		{"[]int{1}", 1, func() any { return []int{1} }, true},
+		{"[]any{1}", 1, func() any { return []any{1.0} }, true},
+		{"[0]int{}", 1, func() any { return [0]int{} }, true},
+		{"[1]int{}", 1, func() any { return [1]int{} }, true},
+		{"map[string]any{}", 1, func() any { return map[string]any{} }, true},
+		{"map[string]any(nil)", 1, func() any { return map[string]any(nil) }, false},
+		{"map[string]int{}", 1, func() any { return map[string]int{} }, true},
+		{"map[string]int{a:1}", 1, func() any { return map[string]int{"a": 1} }, true},
+		{"map[int]bool{}", 1, func() any { return map[int]bool{} }, true},
+		{"struct{}{}", 1, func() any { return struct{}{} }, true},
+		{"named-empty-struct", 1, func() any { return c20Empty{} }, true},
+		{"struct-all-omitted", 1, func() any { return c20AllOmitted{} }, true},
+		{"struct-only-ignored-field", 1, func() any { return c20Ignored{} }, true},
+		{"struct-one-field", 1, func() any { return c20OneField{} }, true},
+		{"map[string]struct{}{k:{}}", 2, func() any { return map[string]struct{}{"k": {}} }, true},
+		{"[]struct{}{{}}", 2, func() any { return []struct{}{{}} }, true},
+		{"[]named-empty{{}}", 2, func() any { return []c20Empty{{}} }, true},
+		{"[1]struct{}", 2, func() any { return [1]struct{}{} }, true},
+		{"[][]int{{}}", 2, func() any { return [][]int{{}} }, true},
+		{"[]map[string]int{{}}", 2, func() any { return []map[string]int{{}} }, true},
+		{"struct{F struct{}}", 2, func() any { return struct{ F struct{} }{} }, true},
+		{"struct{F *empty}", 2, func() any { return struct{ F *c20Empty }{&c20Empty{}} }, true},
+		{"Value{}", 1, func() any { return jsontext.Value(`{}`) }, true},
+		{"Value[]", 1, func() any { return jsontext.Value(`[]`) }, true},
+		{"Value[1]", 1, func() any { return jsontext.Value(`[1]`) }, true},
+		{"Value{a:[]}", 2, func() any { return jsontext.Value(`{"a":[]}`) }, true},
+		{"MarshalJSON{}", 1, func() any { return c20RawObj{} }, true},
+		{"MarshalJSON[]", 1, func() any { return c20RawArr{} }, true},
+		{"MarshalJSONTo-tokens{}", 1, func() any { return c20ToObj{} }, true},
+		{"MarshalJSONTo-value[]", 1, func() any { return c20ToVal{} }, true},
+		{"scalar-0", 0, func() any { return 0.0 }, true},
+		{"scalar-null", 0, func() any { return nil }, true},
+	}
+	out := append([]c20Leaf{}, base...)
+	for _, l := range base {
+		if l.name == "scalar-null" {
+			continue
+		}
+		l := l
+		out = append(out, c20Leaf{"&" + l.name, l.levels, func() any { // pointer to each
+			v := reflect.ValueOf(l.mk())
+			p := reflect.New(v.Type())
+			p.Elem().Set(v)
+			return p.Interface()
+		}, l.v1})
+	}
+	return out
+}
+
+func c20Wrap(kind string, w int, v any) any {
+	for i := 0; i < w; i++ {
+		switch kind {
+		case "slice":
+			v = []any{v}
+		case "map":
+			v = map[string]any{"a": v}
+		default: // pointer to struct
+			v = &c20W{A: v}
+		}
+	}
+	return v
+}
+
+// c20JSONDepth is the maximal bracket nesting of a text (strings skipped).
+func c20JSONDepth(b []byte) int {
+	d, max := 0, 0
+	inStr := false
+	for i := 0; i < len(b); i++ {
+		ch := b[i]
+		if inStr {
+			if ch == '\\' {
+				i++
+			} else if ch == '"' {
+				inStr = false
+			}
+			continue
+		}
+		switch ch {
+		case '"':
+			inStr = true
+		case '[', '{':
+			d++
+			if d > max {
+				max = d
+			}
+		case ']', '}':
+			d--
+		}
+	}
+	return max
+}
+
+func c20MarshalLeafSweep(c *Ctx) {
+	leaves := c20Leaves()
+	wrappers := []string{"slice", "map", "ptr-struct"}
+	totals := []int{10000, 10001}
+	if c.Thorough() {
+		totals = []int{9999, 10000, 10001, 10002}
+	}
+	ws := jsontext.SpaceAfterColon(true) // any whitespace option disables the `[]`/`{}` fast paths
+	type leafCase struct {
+		leaf    c20Leaf
+		wrapper string
+		total   int
+		api     string
+		opt     string
+	}
+	var cases []leafCase
+	apis := []string{"Marshal", "MarshalWrite", "MarshalEncode", "v1.Marshal"}
+	for li, lf := range leaves {
+		for wi, wr := range wrappers {
+			m := li*len(wrappers) + wi
+			for _, tot := range totals {
+				// cheap and complete: pre-descend an encoder by tokens, marshal only the last levels (both option sets)
+				cases = append(cases, leafCase{lf, wr, tot, "tokens+MarshalEncode", "default"}, leafCase{lf, wr, tot, "tokens+MarshalEncode", "whitespace"})
+				// full recursion through the public entry points.  Thorough: the whole product.  Quick: per innermost value,
+				// Marshal with default options under one wrapper and one other (entry point, option set) under another,
+				// both rotating over the product, each at every nesting.
+				for ai, api := range apis {
+					for oi, opt := range []string{"default", "whitespace"} {
+						rot := (li/len(wrappers) + li) % (len(apis)*2 - 1) // 0..6 over the seven non-(Marshal,default) pairs
+						pair := ai*2 + oi - 1
+						switch {
+						case c.Thorough(),
+							ai == 0 && oi == 0 && wi == li%len(wrappers),
+							pair == rot && wi == (li+1)%len(wrappers) && li%2 == 0:
+							cases = append(cases, leafCase{lf, wr, tot, api, opt})
+						}
+					}
+				}
+			}
+			_ = m
+		}
+	}
+	defer debug.SetGCPercent(debug.SetGCPercent(800))
+	var tmu sync.Mutex
+	apiTime := map[string]time.Duration{}
+	jobs := make(chan leafCase, len(cases))
+	for _, k := range cases {
+		jobs <- k
+	}
+	close(jobs)
+	var wg sync.WaitGroup
+	for w := 0; w < c20Workers(c); w++ {
+		wg.Add(1)
+		go func() {
+			defer wg.Done()
+			for k := range jobs {
+				if strings.HasPrefix(k.api, "v1.") && !k.leaf.v1 {
+					continue
+				}
+				wcount := k.total - k.leaf.levels
+				var opts []json.Options
+				if k.opt == "whitespace" {
+					opts = append(opts, ws)
+				}
+				var out []byte
+				var err error
+				t0 := time.Now()
+				pv := guard(func() {
+					switch k.api {
+					case "Marshal":
+						out, err = json.Marshal(c20Wrap(k.wrapper, wcount, k.leaf.mk()), opts...)
+					case "MarshalWrite":
+						var bb bytes.Buffer
+						err = json.MarshalWrite(&bb, c20Wrap(k.wrapper, wcount, k.leaf.mk()), opts...)
+						out = bb.Bytes()
+					case "MarshalEncode":
+						var bb bytes.Buffer
+						err = json.MarshalEncode(jsontext.NewEncoder(&bb, opts...), c20Wrap(k.wrapper, wcount, k.leaf.mk()))
+						out = bb.Bytes()
+					case "v1.Marshal":
+						if k.opt == "whitespace" {
+							out, err = jsonv1.MarshalIndent(c20Wrap(k.wrapper, wcount, k.leaf.mk()), "", "")
+						} else {
+							out, err = jsonv1.Marshal(c20Wrap(k.wrapper, wcount, k.leaf.mk()))
+						}
+					case "tokens+MarshalEncode":
+						const pre = 9980
+						var bb bytes.Buffer
+						e := jsontext.NewEncoder(&bb, opts...)
+						for i := 0; i < pre; i++ {
+							if err = e.WriteToken(jsontext.BeginArray); err != nil {
+								return
+							}
+						}
+						if err = json.MarshalEncode(e, c20Wrap(k.wrapper, wcount-pre, k.leaf.mk())); err != nil {
+							return
+						}
+						for i := 0; i < pre; i++ {
+							if err = e.WriteToken(jsontext.EndArray); err != nil {
+								return
+							}
+						}
+						out = bb.Bytes()
+					}
+				})
+				tmu.Lock()
+				apiTime[k.api] += time.Since(t0)
+				tmu.Unlock()
+				id := fmt.Sprintf("leaf=%s wrapper=%s total=%d opt=%s", k.leaf.name, k.wrapper, k.total, k.opt)
+				op := "depth/marshal-leaf/" + k.api
+				c.Case("leaf|"+k.api+"|"+id, true)
+				c.Hit("marshal-leaf/api=" + k.api)
+				c.Hit("marshal-leaf/wrapper=" + k.wrapper)
+				c.Hit(fmt.Sprintf("marshal-leaf/total=%d", k.total))
+				if pv != nil {
+					c.Panic(op, []byte(id), pv, nil)
+					continue
+				}
+				wantOK := k.total <= c20Max
+				cls := c20Class(err)
+				c.Hit("marshal-leaf/result=" + cls)
+				detail := map[string]any{"leaf": k.leaf.name, "wrapper": k.wrapper, "nesting": k.total, "options": k.opt, "class": cls}
+				switch {
+				case err == nil && !wantOK:
+					c.Violate("depth-accepted-above-limit/marshal-leaf", op, []byte(id), detail)
+				case err != nil && wantOK:
+					detail["error"] = trunc(err.Error(), 200)
+					c.Violate("depth-refused-at-or-below-limit/marshal-leaf", op, []byte(id), detail)
+				case err != nil && !strings.HasPrefix(k.api, "v1.") && cls != "maxdepth":
+					detail["error"] = trunc(err.Error(), 200)
+					c.Violate("depth-refusal-wrong-class/marshal-leaf", op, []byte(id), detail)
+				}
+				if err == nil {
+					// whatever was accepted must have the nesting the bookkeeping says, and be valid for the library's own reader
+					if got := c20JSONDepth(out); got != k.total {
+						fail("marshal-leaf bookkeeping: %s: output nesting %d, expected %d", id, got, k.total)
+					}
+					if k.api != "tokens+MarshalEncode" && !jsontext.Value(out).IsValid() {
+						c.Violate("marshal-output-refused-by-IsValid", op, []byte(id), detail)
+					}
+				}
+			}
+		}()
+	}
+	wg.Wait()
+	c.Note("marshal-leaf sweep: time per entry point (summed) %v", apiTime)
+	c.Note("marshal-leaf sweep: %d innermost values × %d wrappers × nestings %v: %d cases", len(leaves), len(wrappers), totals, len(cases))
 }
